@@ -267,4 +267,47 @@ PROPS = {
         trusted_base=COMMON_TRUST,
         assumptions=["the code map is the one returned by parsing the same value (offset 0 = root)"],
     ),
+
+    "C16": dict(
+        tables=[],
+        determined=True,
+        technique="Lean 4 theorems about a model of the serde Serializer (JSON shape of every data-model construct, structs = ordered objects, key serializer) fed with data recorded from real derive output; end-to-end round trips through to_value/from_value/serde_json on a family of derive-annotated types (direct oracles)",
+        level_text=("PARTIAL proof. A recording serde::Serializer in the harness turns each generated Rust datum into SData (what the datum looks like to a Serializer, as produced by the real serde-derive code); the Lean model `ser` of src/serde/ser.rs "
+                    "(Serializer, KeySerializer, StringNumberSerializer, compound serializers, the number-token channel, Object::insert semantics) must return exactly json_syntax::to_value(datum) — this ties the model to ser.rs on every run. "
+                    "Proved in Lean: C16_shape (null/transparent/externally-tagged/array shapes of every construct, as serde_json documents them), C16_struct (distinct field names, none the private token: ordered object of the fields), C16_map_keys (which key types are accepted and their string form). "
+                    "NOT modelled: src/serde/de.rs + serde-derive visitors (C16_roundtrip_full). The round-trip clauses are decided by direct oracles on the real code for a type family covering every shape (recursive struct with Option<Box<_>>, Vec<enum>, maps keyed by String/i32/char/u64/unit variant/newtype, unit/newtype/tuple/struct/nested enum variants, all 8 integer widths at their bounds, random-bit-pattern f32/f64 incl. non-finite, tuples, arrays, options): "
+                    "from_value(to_value(x)) == x (floats bit-exact up to -0), to_value(x) has serde_json's shape, from_value(from_serde_json(serde_json::to_value(x))) == x."),
+        level_note="Trusted: Lean kernel; serde, serde-derive, serde_json, lexical (float text is supplied by the real code as an opaque value of the model); the harness's recording serializer.",
+        rule="request = SData recorded from one generated datum; reply = to_value(datum). All cases non-trivial; distinct request lines. Round-trip oracles run on the datum itself",
+        strength="partial: serializer shape proved and tied by recording; deserializer and derive visitors tested only",
+        trusted_base=COMMON_TRUST + ["serde-derive generated code", "serde_json"],
+        assumptions=["finite floats print to a text that parses back to the same float (lexical); checked by the round-trip oracle"],
+    ),
+    "C17": dict(
+        tables=[],
+        determined=True,
+        technique="Lean 4 theorem by mutual induction: to_value(&value) = value with 64-bit integer literals re-rendered, for values without duplicate keys (model of Serialize for Value/Object/Number composed with the serializer model); deserialization decided by direct oracles with class-predicate known findings",
+        level_text=("PARTIAL proof. Proved in Lean (C17_serialize): for every value whose numbers are JSON numbers, without duplicate keys and without the private number token as a key, serializing it with the crate's own serializer returns the same structure, strings and key order, "
+                    "every number byte-for-byte except plain 64-bit integer literals which are re-rendered from the integer (-0 loses its sign); C17_number_verbatim (fraction / exponent / beyond 64 bits: exact spelling — the latter two since a fix: commit); "
+                    "kernel-checked witnesses for the duplicate-key collapse (first position, last value) and for the number-token key (a recorded known finding). "
+                    "Deserialization (from_value::<Value>, serde_json::from_str::<Value>) is not modelled (C17_deserialize_full): direct oracles compare structure and numbers with what the deserializer itself reads; the >19-significant-digit one-ulp class named in the property is a known finding identified by its class predicate."),
+        level_note="Trusted: Lean kernel; str::parse::<i64/u64> = String.toInt?/toNat? with range check; i64/u64 to_string = Lean's toString; json-number, lexical, serde_json for the deserialization oracles.",
+        rule="request = a Value (to_value) or a Value for the oracle-only deserialization routes; reply = result of to_value. Non-trivial = successful; distinct request lines; oracle_only_cases counts the deserialization cases the model does not cover",
+        strength="partial: serialization proved; deserialization tested with known-finding classes",
+        trusted_base=COMMON_TRUST + ["json-number Deserializer / lexical (opaque)"],
+        assumptions=[],
+    ),
+    "C18": dict(
+        tables=[],
+        determined=False,
+        technique="Lean 4 theorem: serde_json -> json-syntax -> serde_json is the identity on every well-formed serde_json value given number text round trip (sorted-map insertion lemma); both directions executed under catch_unwind over all three serde_json number representations (direct oracles)",
+        level_text=("PARTIAL proof. Model of both conversions with serde_json numbers and their text conversions as opaque parameters. Proved in Lean (C18_from_into): for every serde_json value (objects = BTreeMaps, keys strictly ascending) converting into a json-syntax value and back returns the same serde_json value, "
+                    "given that a serde_json number's text converts back to the same number (NumRoundTrip — after the fix: commit the way back is u64/i64 parsing or the correctly rounded str::parse::<f64>; tested); C18_into_total: the into direction is total, a number without serde_json counterpart becomes null (the former panic is repaired). "
+                    "The number functions make the model non-executable for the correspondence, so every case is decided by direct oracles on the real code under catch_unwind: both round trips on generated values incl. u64::MAX, i64::MIN, -0.0, subnormals, huge/tiny doubles, 1e400, arbitrary strings/keys, nesting, and values built from serde_json::json! with random u64/i64/f64."),
+        level_note="Trusted: Lean kernel; serde_json (Number printing/parsing, Map = BTreeMap), std float parsing; the model is tied to the code by the oracles only (numbers are opaque).",
+        rule="request = a json-syntax value (also obtained from serde_json values); oracle-only (model replies skip). evaluations = cases executed; distinct request lines",
+        strength="partial: from∘into identity proved modulo number hypothesis; the rest tested",
+        trusted_base=COMMON_TRUST + ["serde_json"],
+        assumptions=["NumRoundTrip: serde_json::Number -> text -> serde_json::Number is the identity"],
+    ),
 }
